@@ -360,3 +360,54 @@ def check_segmentation_flag(ctx, bodies, what):
                             '(e.g. "\\r\\n" is one ASCII grapheme cluster), so character indices, operation lists and lengths no longer agree' % (
                                 what, t.span['line'], __import__('analysis.sym', fromlist=['show_in']).show_in(b, f2)[:80]), t.span)
     return n
+
+
+def _flows_from(body, x, t, stop, seen=None):
+    """does the value of call `t` flow into operand/place x (backward through definitions), without passing through a call that
+    matches `stop` (a capacity hint does not carry the length into the container's contents)"""
+    from analysis.facts import Place as _Place
+    import re as _re
+    if seen is None:
+        seen = set()
+    pl = x if isinstance(x, _Place) else getattr(x, 'place', None)
+    if pl is None:
+        return False
+    l = pl.local
+    if l in seen or (1 <= l <= body.arg_count):
+        return False
+    seen.add(l)
+    whole, partial = _defs_of(body, l)
+    for d in list(whole) + list(partial):
+        if hasattr(d, 'rv'):
+            if d.rv.place is not None and _flows_from(body, d.rv.place, t, stop, seen):
+                return True
+            if any(_flows_from(body, o, t, stop, seen) for o in d.rv.ops):
+                return True
+        else:
+            if d is t:
+                return True
+            if _re.search(stop, d.callee_res() or ''):
+                continue
+            if any(_flows_from(body, o, t, stop, seen) for o in d.args):
+                return True
+    return False
+
+
+def length_consumers(body, t):
+    """terminators (calls, switches) that consume the result of the length call `t`, other than capacity hints
+    (`with_capacity`, `reserve`, ...): a raw byte / code point length that only pre-sizes a buffer is harmless"""
+    import re as _re
+    stop = r'::(with_capacity|reserve|reserve_exact|shrink_to|try_reserve)$'
+    out = []
+    for blk in body.blocks:
+        if blk.cleanup or blk.idx not in body.reachable:
+            continue
+        u = blk.term
+        if u is t:
+            continue
+        ops = list(u.args) if u.kind == 'call' else ([u.discr] if u.kind == 'switch' else [])
+        if u.kind == 'call' and _re.search(stop, u.callee_res() or ''):
+            continue
+        if any(_flows_from(body, o, t, stop) for o in ops):
+            out.append(u)
+    return out
